@@ -287,6 +287,34 @@ def index_obligations(ctx, prefix):
             if bool(h) != bool(want) or not isinstance(h, bool): bad.append(f'has over {pattern}: {h}')
         ctx.add(enum_ob(f'{prefix}.Branch.search-find-has', not bad, where, cases=cases, cex=dict(bad=bad[:6]),
                         clause='search(m) yields exactly the members of _index.select(m, self) that meet m, in order; find(m) is the first of them or None; has(m) is find(m) is not None'))
+        # ---------------- Node.for_mapping: the node class is decided by which properties are PRESENT (not None) -- a present property may be
+        # falsy (designated=False, world 0); the model builder and the closure rules read the class
+        from pytableaux.proof import common as CM
+        fnm = Node.__dict__['for_mapping']; fnm = getattr(fnm, '__func__', fnm); fim = source.of_function(fnm); wherem = ctx.under_contract(fim)
+        badm2 = []; casesm = 0
+        from pytableaux.lang import Atomic
+        A_ = Atomic(0, 0)
+        for sent in (None, A_):
+            for des in (None, True, False):
+                for w in (None, 0, 1):
+                    for w1, w2 in ((None, None), (0, 0), (1, 0), (0, None)):
+                        casesm += 1
+                        mp = {k: v for k, v in dict(sentence=sent, designated=des, world=w, world1=w1, world2=w2).items() if v is not None}
+                        if w1 is not None and w2 is not None: want = 'AccessNode'
+                        elif sent is not None: want = 'Sentence' + ('Designation' if des is not None else '') + ('World' if w is not None else '') + 'Node'
+                        elif des is not None: want = 'DesignationNode'
+                        elif w is not None: want = 'WorldNode'
+                        else: want = None
+                        if want is None: continue
+                        w3 = World(); made = []
+                        for nm in ('AccessNode', 'SentenceNode', 'SentenceWorldNode', 'SentenceDesignationNode', 'SentenceDesignationWorldNode', 'DesignationNode', 'WorldNode', 'FlagNode', 'ClosureNode', 'QuitFlagNode', 'EllipsisNode', 'UnknownNode'):
+                            cls_ = getattr(CM, nm, None)
+                            if cls_ is not None: w3.contract(cls_, (lambda it, m, nm=nm: (made.append(nm), nm)[1]), name=f'{nm}(mapping)')
+                        try: r_ = Interp(Path([]), w3).call_source(fim, fnm, Node, [dict(mp)], {})
+                        except PyExc as e_: r_ = f'exception {e_.cls.__name__}'
+                        if r_ != want: badm2.append(f'{mp}: {r_}, expected {want}')
+        ctx.add(enum_ob(f'{prefix}.Node.for_mapping.by-presence', not badm2, wherem, cases=casesm, cex=dict(bad=badm2[:4]) if badm2 else None,
+                        clause='for_mapping builds the node class named by the properties present in the mapping (sentence / designated / world, or world1+world2): designated=False and world 0 are present'))
     except Outside as e:
         ctx.add_result(Result(f'{prefix}.index', 'unknown', detail=f'outside subset: {e}'))
 
@@ -348,7 +376,18 @@ def replay_index(r):
         if not c.has(mk(3)): out.append(f'{label}: a copy of the branch does not find its node')
     return dict(reproduced=bool(out), detail='; '.join(out[:4]) or 'every lookup finds its node')
 
+def replay_for_mapping(r):
+    from pytableaux.proof import Node
+    from pytableaux.lang import Atomic
+    A = Atomic(0, 0); out = []
+    for mp, want in (({'sentence': A, 'designated': False}, 'SentenceDesignationNode'), ({'sentence': A, 'designated': False, 'world': 0}, 'SentenceDesignationWorldNode'),
+                     ({'sentence': A, 'world': 0}, 'SentenceWorldNode'), ({'world1': 0, 'world2': 0}, 'AccessNode'), ({'sentence': A, 'designated': True}, 'SentenceDesignationNode')):
+        got = type(Node.for_mapping(mp)).__name__
+        if got != want: out.append(f'for_mapping({ {k: str(v) for k, v in mp.items()} }) is a {got}, expected {want}')
+    return dict(reproduced=bool(out), detail='; '.join(out[:3]) or 'node classes follow the properties present')
+
 def register_replayers(ctx, prefix):
+    ctx.replayers[f'{prefix}.Node.for_mapping'] = replay_for_mapping
     ctx.replayers[f'{prefix}.Index.'] = replay_index
     ctx.replayers[f'{prefix}.index.'] = replay_index
     ctx.replayers[f'{prefix}.Node.meets'] = replay_index
